@@ -106,13 +106,36 @@ def worker(args, scratch):
                 elif kind == "ctl-root-ws": dest, ident = "wireserver", root
                 else: dest, ident = "imds", who
                 ev0 = len(wproxy.standin.events(w.vdir))
+                kw = {}
+                if kind in ("ne-ws", "ne-hga") and r.random() < 0.25:
+                    # the same process was elevated a moment ago (a daemon that dropped privileges, a recycled pid): the record of THIS
+                    # connection says non-elevated and that is what counts
+                    pre = w.open(dest, ident, uid=0, is_root=1)
+                    pre.send(rawhttp.build_request("GET", "/pre", [("x-vf-id", "pre-%d-%d-%d" % (args["shard"], pol, n))]))
+                    try:
+                        pre.read_response()
+                    except Exception:
+                        pass
+                    pre.close()
+                    cnt["privilege_drop_histories"] = cnt.get("privilege_drop_histories", 0) + 1
+                    ev0 = len(wproxy.standin.events(w.vdir))
                 conn = w.open(dest, ident)
                 body = gen_http.body(r, 300) if method in ("POST", "PUT", "PATCH") else b""
-                conn.send(rawhttp.build_request(method, target, gen_http.headers(r) + [("x-vf-id", vid)], body))
-                try:
-                    status = conn.read_response(method.encode()).status
-                except Exception as e:  # noqa
-                    status = "error:%r" % (e,)
+                status = None
+                nreq = r.choice([1, 1, 2, 4]) if kind in ("ne-ws", "ne-hga", "self") else 1
+                for k in range(nreq):
+                    # several requests on one keep-alive connection: every one of them must be refused, not only the first
+                    conn.send(rawhttp.build_request(method, target, gen_http.headers(r) + [("x-vf-id", vid)], body))
+                    try:
+                        st = conn.read_response(method.encode()).status
+                    except Exception as e:  # noqa
+                        st = "error:%r" % (e,)
+                    if status is None or st != 403:
+                        status = st
+                    if st != 403:
+                        break
+                if nreq > 1:
+                    cnt["keepalive_refusal_sequences"] = cnt.get("keepalive_refusal_sequences", 0) + 1
                 conn.close()
                 res["evaluations"] += 1
                 ups = w.upstream(vid)
